@@ -1846,3 +1846,58 @@ example : ∀ y m,
     cases a <;> cases b <;> simp [toDict] at ht <;> (subst ht; exact h)
 
 end Utv.C18
+
+namespace Utv.C18
+
+/-! ### assignments on instances of an already parsed tree
+
+`inst.f = w`, `inst['f'] = w`, `inst.update(f=w)`, `inst |= {f: w}` all end in `Schema.__field_setter__` /
+`__setitem__`, which parse `w` as field `f` in a **fresh** context of the instance's class (`parseAssign`).  So an
+assignment is the parse of the one-field mapping `{f: w}` at the root: the instance is level 1, whatever level it was
+built at, and every theorem about `parseTop` transfers. -/
+
+/-- **A setter starts from a fresh root context**: the level at which the instance sits in an earlier parse is
+not looked at. -/
+theorem C18_assign_fresh_context (W : World) (Q : Quirks) (hS : Q.setterInherits = false) (E : Env) (fuel level k : Nat)
+    (f : String) (w : Val) :
+    parseAssign W Q E fuel level k f w = parseTop W Q E fuel false k (.dict [(.str f, w)]) := by
+  simp [parseAssign, parseTop, hS]
+
+/-- the same assignment on an instance taken from any level of any tree and on a directly constructed one -/
+theorem C18_assign_level_independent (W : World) (Q : Quirks) (hS : Q.setterInherits = false) (E : Env)
+    (fuel level level' k : Nat) (f : String) (w : Val) :
+    parseAssign W Q E fuel level k f w = parseAssign W Q E fuel level' k f w := by
+  rw [C18_assign_fresh_context W Q hS, C18_assign_fresh_context W Q hS]
+
+/-- **The depth limit is exact for assignments** (`max_depth = d ≥ 1` on every class): what is accepted has nesting
+depth ≤ d counted from the instance; and a value that is assigned as `r` without a limit is assigned as `r` under the
+limit **iff** `rdepth r ≤ d` (`r` = the instance with the new field). -/
+theorem C18_assign_exact (W : World) (Q : Quirks) (hQ : Q.falsyRoute = false) (hR : Q.rootLevel = false)
+    (hS : Q.setterInherits = false) (E : Env) (d : Nat) (hd : d ≠ 0) (fuel level k : Nat) (f : String) (w : Val) :
+    (∀ r, (parseAssign W Q (withLimit d E) fuel level k f w).1 = .ok r →
+        rdepth r ≤ d ∧ (parseAssign W Q (unlimited E) fuel level k f w).1.isOk = true) ∧
+    (∀ r, (parseAssign W Q (unlimited E) fuel level k f w).1 = .ok r →
+        ((parseAssign W Q (withLimit d E) fuel level k f w).1 = .ok r ↔ rdepth r ≤ d)) := by
+  rw [C18_assign_fresh_context W Q hS, C18_assign_fresh_context W Q hS]
+  exact C18_depth_exact W Q hQ hR E d hd fuel false k _
+
+/-- … and on verdicts, for declarations whose unions cannot be read in two ways: the assignment is accepted **iff**
+it is accepted without limit with nesting depth (instance included) at most `d` — for an instance from any level. -/
+theorem C18_assign_exact_iff (W : World) (Q : Quirks) (hQ : Q.falsyRoute = false) (hR : Q.rootLevel = false)
+    (hS : Q.setterInherits = false) (E : Env) (hE : envUnamb E = true) (d : Nat) (hd : d ≠ 0)
+    (fuel level k : Nat) (f : String) (w : Val) :
+    (parseAssign W Q (withLimit d E) fuel level k f w).1.isOk = true ↔
+      ∃ r, (parseAssign W Q (unlimited E) fuel level k f w).1 = .ok r ∧ rdepth r ≤ d := by
+  rw [C18_assign_fresh_context W Q hS, C18_assign_fresh_context W Q hS]
+  exact C18_depth_exact_iff W Q hQ hR E hE d hd fuel false k _
+
+/-- what the property excludes (a setter that chains its context to the one the instance was built with): a scalar
+assigned to the instance at level 3 of a tree parsed with `max_depth = 3` would be rejected, the same assignment on a
+directly constructed instance accepted -/
+theorem C18_setter_inherits_witness :
+    (parseAssign W0 { setterInherits := true } (oneClass (.union [.data 0, .none]) 3) 10 3 0 "v" (.tok 0)).1.isOk = false ∧
+    (parseAssign W0 { setterInherits := true } (oneClass (.union [.data 0, .none]) 3) 10 0 0 "v" (.tok 0)).1.isOk = true ∧
+    (parseAssign W0 Quirks.fixed (oneClass (.union [.data 0, .none]) 3) 10 3 0 "v" (.tok 0)).1.isOk = true := by
+  decide
+
+end Utv.C18
